@@ -188,6 +188,15 @@ def serve (pick : Pick) (text idx : List Byte) (addrs : List Nat) : Served :=
   | .panic => .mapPanic
   | .ok ix => .looks (lookupSeq text ix Cache.empty addrs)
 
+/-- the id token (hex digits of a MODULE record) of the debug id that the served map reports
+(`SymbolMapTrait::debug_id` = `index.debug_id`, symbol_map.rs:236-238): `parse_symindex_file` takes it from the
+LAST line of the index's module info that parses as a MODULE record (index.rs:57-95, `BP.deriveModule`) — for
+a sidecar that `make_index_storage` accepts, from the sidecar's module info, NOT from the `.sym` text -/
+def servedId (pick : Pick) (text idx : List Byte) : Option (List Byte) :=
+  match mapStored pick text (some idx) with
+  | .ok ix => (deriveModule ix.moduleInfo).map (·.id)
+  | _ => none
+
 /-- the same with an `iter_symbols()` pass between two runs of lookups -/
 def serveSession (pick : Pick) (text idx : List Byte) (pre post : List Nat) : Served :=
   match mapStored pick text (some idx) with
